@@ -29,9 +29,10 @@ func (k Keeper) WeightedMode(ctx context.Context, reports []types.MicroReport, m
 		totalReporterPower += r.Power
 	}
 
-	// find the max frequency
+	// find the max frequency; map iteration order is random, so values with exactly equal
+	// frequency are resolved by a fixed rule (the lexicographically smaller value wins)
 	for value, frequency := range frequencyMap {
-		if frequency > maxFrequency {
+		if frequency > maxFrequency || (frequency == maxFrequency && value < mode) {
 			maxFrequency = frequency
 			mode = value
 		}
